@@ -1024,6 +1024,24 @@ pub fn inference_shape_family(thorough: bool) -> Vec<Prog> {
   out
 }
 
+/// Every well-typed int term up to a size bound over the mixed grammar of `terms.rs`
+/// (5: 2 566 terms quick, 6: 20 036 terms thorough), 20 terms per program.
+pub fn term_family(thorough: bool) -> Vec<Prog> {
+  let mut out = vec![];
+  for size in 1..=(if thorough { 6 } else { 5 }) {
+    let terms = crate::terms::int_terms_exact(size);
+    for (ci, chunk) in terms.chunks(20).enumerate() {
+      out.push(Prog {
+        family: "term",
+        shape: format!("size={size} chunk={ci}"),
+        name: format!("terms of size {size}, chunk {ci} (first: {})", chunk[0]),
+        text: crate::terms::program(chunk),
+      });
+    }
+  }
+  out
+}
+
 pub fn recursion_family(thorough: bool) -> Vec<Prog> {
   let mut out = vec![];
   let updates2 = ["a", "b", "a + b", "a - b", "b + 1", "a * 2", "0"];
@@ -1377,6 +1395,7 @@ pub fn all_families(thorough: bool) -> Vec<Prog> {
   v.extend(self_call_position_family());
   v.extend(typed_tail_recursion_family());
   v.extend(inference_shape_family(thorough));
+  v.extend(term_family(thorough));
   v.extend(constant_parameter_family());
   v.extend(escape_family(thorough));
   v.extend(vec_family(thorough));
